@@ -4,6 +4,7 @@ import RxProofs.Lemmas.StructConnRc
 import RxProofs.Lemmas.StructConnAc
 import RxProofs.Lemmas.StructSubj
 import RxProofs.Lemmas.StructConnSync
+import RxProofs.Lemmas.StructConnRaw
 /-!
 # C24 — multicasting shares one source subscription per connection
 
@@ -183,6 +184,63 @@ example :
       [.sub 0 none (some (1, 0)), .connect] 100
     r.nSrc = 1 ∧ r.maxOpen = 1 ∧ Sync.outputsOf r 0 = [.next 101, .next 102] := by decide
 end sync
+
+/-! ### `multicast(subject_factory, mapper)` -/
+
+theorem mcastOps_shape (k t : Nat) (tu : Option Nat) :
+    ∃ stop, mcastOps k t tu = (List.range k).map (fun a => (t, Op.sub a)) ++ ([(t, Op.connect)] ++ stop) ∧
+      noConnect stop = true := by
+  cases tu with
+  | none => exact ⟨[], by simp [mcastOps], rfl⟩
+  | some u =>
+    refine ⟨(List.range k).map (fun a => (u, Op.unsub a)) ++ [(u, Op.disconnect 0)], by simp [mcastOps], ?_⟩
+    generalize List.range k = l
+    induction l with
+    | nil => rfl
+    | cons a rest ih => simpa [noConnect] using ih
+
+/-- **multicast_factory_one_source_subscription.** `multicast(subject_factory, mapper)` (hence
+`publish(mapper)`, `replay(mapper=…)`, `publish_value(v, mapper)`): every outer subscription — made at
+any time `t`, with a mapper that subscribes the private connectable `k` times, disposed at any time
+or never, over any source and subject kind — subscribes the source **exactly once, at `t`**, and when
+it is over (disposed, or at the horizon) its connection is released: not connected, no source
+subscription open. -/
+theorem multicast_factory_one_source_subscription (w : World α) (hf : Fresh w) (hw : w.wrap = .raw)
+    (hlog : w.srcLog = []) (k t : Nat) (tu : Option Nat) (horizon : Nat) :
+    (w.mcastWorld k t tu horizon).subTimes = [t] ∧ (w.mcastWorld k t tu horizon).hasSub = false ∧
+    (w.mcastWorld k t tu horizon).srcOpen = [] := by
+  unfold mcastWorld
+  obtain ⟨stop, hshape, hstop⟩ := mcastOps_shape k t tu
+  have hfin := run_raw_final w hf.inv hw (mcastOps k t tu) horizon
+  refine ⟨?_, hfin.1, hfin.2.1⟩
+  rw [hfin.2.2, hshape, runOps_append]
+  -- the k inner subscriptions do not connect
+  have hsubs := runOps_subs_same ((List.range k).map (fun a => (t, Op.sub a)))
+    (by intro o ho; simp only [List.mem_map] at ho; obtain ⟨a, _, rfl⟩ := ho; exact ⟨t, a, rfl⟩) w [] hw
+  rw [hsubs.2]
+  generalize (w.runOps [] ((List.range k).map (fun a => (t, Op.sub a)))).1 = w1 at hsubs
+  have hw1 : w1.wrap = .raw := by rw [hsubs.1.1]; exact hw
+  -- the connect
+  simp only [List.cons_append, List.nil_append, runOps, applyOp]
+  have ha := advance_same t (w1.pendingCount + 1) w1 hw1
+  have hwa : (advance t (w1.pendingCount + 1) w1).wrap = .raw := by rw [ha.1]; exact hw1
+  have hns : (advance t (w1.pendingCount + 1) w1).hasSub = false := by rw [ha.2.2.1, hsubs.1.2.2.1]; exact hf.1
+  have hce := connect_effective (advance t (w1.pendingCount + 1) w1) t hns
+  have hrest := runOps_noConnect stop ((advance t (w1.pendingCount + 1) w1).connect t)
+    [((advance t (w1.pendingCount + 1) w1).connect t).curHandle] (by rw [connect_wrap]; exact hwa) hstop
+  rw [hrest.2]
+  simp only [subTimes, hce.2.1, List.map_append, List.map_cons, List.map_nil]
+  have : (advance t (w1.pendingCount + 1) w1).subTimes = [] := by
+    rw [ha.2.1, hsubs.1.2.1]; simp [subTimes, hlog]
+  simp only [subTimes] at this
+  rw [this]; rfl
+
+/-- two outer subscribers of `publish(mapper)` with a mapper that uses the connectable twice: two
+source subscriptions, one each -/
+example :
+    let w : World Nat := { subj := {}, coldMsgs := [(10, .next 1), (30, .completed)] }
+    (w.mcastWorld 2 200 none 1000).srcLog = [(0, 200, some 230)] ∧
+    (w.mcastWorld 2 215 (some 220) 1000).srcLog = [(0, 215, some 220)] := by decide
 
 /-! Non-vacuity: concrete histories. -/
 section examples
